@@ -76,6 +76,7 @@ CONTROLS = {
                     ("FutureChain.mc2.cfg", {"Bug": '"done_check_outside_lock"'}, "ContractHolds"),
                     ("FutureChain.mc2.cfg", {"AsShipped_D3": "TRUE"}, "ContractHolds"),
                     ("FutureChain.mc.cfg", {"AsShipped_D15": "TRUE"}, "ContractHolds")],
+    "TimeoutCount": [("TimeoutCount.mc.cfg", {"AsShipped_D18": "TRUE"}, "CountExact")],
     "LockProg": [("LockProg.cos_asshipped.cfg", {}, "Deadlock"), ("LockProg.d14.cfg", {}, "Deadlock")],
 }
 
